@@ -35,6 +35,9 @@ Step(a, tok, later) ==
   ELSE CASE tok \in {"COMMENT", "WS"} -> a                                   \* comments and blank text never leave the header
     \* extends / import with a string literal that cannot be unquoted ("a\q"): a syntax error wherever it stands
     [] tok \in {"EXTENDS_BADSTR", "IMPORT_BADSTR"} -> Acc(s, a.hdr, "reject")
+    \* extends / import of a template that itself has a structural mistake (directly, or in what it extends): the
+    \* referring template is rejected too - and its own lexer is drained like for any other error
+    [] tok \in {"EXTENDS_BROKEN", "IMPORT_BROKEN"} -> Acc(s, a.hdr, "reject")
     [] tok = "EXTENDS" -> IF c = "top" /\ a.hdr = "start" THEN Acc(s, "extended", "accept") ELSE Acc(s, a.hdr, "reject")
     [] tok = "IMPORT"  -> IF c = "top" /\ a.hdr \in {"start", "extended", "imports"} THEN Acc(s, "imports", "accept")
                           ELSE Acc(s, a.hdr, "reject")
